@@ -29,6 +29,7 @@ func (x *Exec) doCall(st *State, in *ssa.Call) bool {
 		if name == "" {
 			name = f.String()
 		}
+		x.hintsBeforeCall(st, name, in)
 		if x.nativeModel(st, in, name, args) {
 			return true
 		}
@@ -978,4 +979,25 @@ func (x *Exec) nativeModel(st *State, in *ssa.Call, name string, args []Val) boo
 		return true
 	}
 	return false
+}
+
+// hintsBeforeCall: intermediate assertions "hint before <callee>: E", proved
+// in the state right before the call and then available.
+func (x *Exec) hintsBeforeCall(st *State, callee string, in *ssa.Call) {
+	if x.c == nil || len(st.frames) > 0 {
+		return
+	}
+	for i, h := range x.c.Hints {
+		if !strings.HasPrefix(h.Label, "before:") {
+			continue
+		}
+		want := strings.TrimPrefix(h.Label, "before:")
+		if callee != want && !strings.HasPrefix(callee, want+"[") && !strings.HasSuffix(callee, "."+want) {
+			continue
+		}
+		env := x.envFor(st, nil)
+		t := x.trBool(env, h.E)
+		x.addVC(st, "invariant", fmt.Sprintf("hint/before_%s#%d", want, i), h.Prop, in.Pos(), t, h.Src)
+		st.assume(t)
+	}
 }
